@@ -7,7 +7,7 @@ EMITS = set("S V Q G A P PM R X E B ST CB TXT RACE".split())
 
 ADV_SETUP = ["wrongcode", "wrongproof", "noproof", "a0", "aN", "a2N", "aempty", "m5first", "start", "m3wrong", "m5zerokey",
              "m5randkey", "badstep", "badmethod", "garbage", "aNforged", "a0forged", "aemptyforged", "wrongcodezero", "m5zeroempty", "m5emptyhkdf"]
-ADV_VERIFY = ["badsig", "unknown", "reordered", "stale", "zerokey", "randkey", "flip", "inner-garbage", "short0", "short7",
+ADV_VERIFY = ["badsig", "unknown", "unknowntail", "reordered", "stale", "zerokey", "randkey", "flip", "inner-garbage", "short0", "short7",
               "short15", "short16", "reflect", "keylen31", "keylen33", "keylen0", "finishfirst", "startonly", "garbage"]
 XEPS = [("accessories", "GET"), ("characteristics", "GET"), ("characteristics-put", "PUT"), ("pairings", "POST"),
         ("pairings-remove", "POST"), ("resource", "POST"), ("identify", "POST")]
@@ -131,6 +131,12 @@ def gen_c02(rng, tier):
                  ["V:a:k0:ok", "R:a:k0:remove", "ST", "N:b", "S:b:k0:replayok", "ST"],
                  ["N:b", "S:b:k1:start", "S:b:k1:m3", "N:c", "S:c:k0:replayok", "ST", "S:b:k1:m5", "ST"]):
         mk(cases, "replay", ["N:a", "S:a:k0:ok", "ST"] + tail)
+    # controller identities of any length the store can keep (up to 122 bytes), also two that share a long prefix: what is
+    # stored is exactly the name delivered, under exactly the key delivered with it
+    for L in ([1, 36, 64, 65, 100, 120, 121, 122] if tier == "quick" else list(range(1, 123, 3)) + [119, 120, 121, 122]):
+        base = bytes(rng.randrange(33, 127) for _ in range(L - 1))
+        a, b = "h" + (base + b"A").hex(), "h" + (base + b"B").hex()
+        mk(cases, "identity", ["N:a", "S:a:%s:ok" % a, "ST", "N:b", "S:b:%s:ok" % b, "ST", "N:c", "V:c:%s:ok" % a, "V:c:%s:ok" % b, "S:c:%s:ok" % (a[:-2] if L > 1 else "hff"), "ST"])
     # exhaustive short sequences over the adversary alphabet on one connection (no right proof anywhere)
     alpha = [m for m in msgs if m not in ("ok", "m3")]
     import itertools
@@ -190,6 +196,13 @@ def spec_setup(ops):
     return stored
 
 
+def name_hex(tok):
+    """a controller name token: "h<hex>" stands for the bytes it encodes"""
+    if tok.startswith("h") and len(tok) > 1 and len(tok) % 2 == 1 and re.fullmatch(r"[0-9a-f]+", tok[1:]):
+        return tok[1:]
+    return tok.encode().hex()
+
+
 def oracle_c02(c, obs):
     if obs.startswith("harness-panic") or obs.startswith("setup-error") or obs.startswith("DRIVER") or obs == "NO-OUTPUT":
         return "harness failure: " + obs[:100]
@@ -205,7 +218,7 @@ def oracle_c02(c, obs):
             except StopIteration:
                 return "missing observations"
             if op == "ST":
-                want = "stored=" + "+".join(sorted(x.encode().hex() for x in spec_setup(done)))
+                want = "stored=" + "+".join(sorted(name_hex(x) for x in spec_setup(done)))
                 if tok != want:
                     return "stored pairings are %s, but only %s delivered a valid setup-code proof and a genuine key exchange" % (tok, want)
     return None
@@ -247,6 +260,14 @@ def gen_c03(rng, tier):
         k = rng.choice(["addshortkey", "addlongkey"])
         ops = ["N:h", "S:h:c0:ok", "V:h:c0:ok", "R:h:odd:%s" % k, "N:x", "V:x:odd:ok", "G:x:2.9", "Q:x", "N:y", "V:y:odd:badsig", "V:y:c0:ok", "G:y:2.9"]
         mk(cases, "oddkey", ops)
+    # long controller names (HAP identifiers have 36 characters; the store keeps names of up to 122 bytes): a name that
+    # differs from a paired one only in its last byte, or only after a long common prefix, verifies nobody
+    for L in ([67, 80, 100, 122] if tier == "quick" else [37, 64, 66, 67, 70, 71, 80, 100, 120, 121, 122]):
+        base = bytes(rng.randrange(33, 127) for _ in range(L - 1))
+        a, b = "h" + (base + b"A").hex(), "h" + (base + b"B").hex()
+        ops = ["N:h", "S:h:%s:ok" % a, "ST", "N:v", "V:v:%s:ok" % a, "G:v:2.9", "N:x", "V:x:%s:unknowntail" % a, "Q:x",
+               "N:y", "V:y:%s:ok" % b, "Q:y", "N:z", "V:z:%s:unknown" % a, "Q:z"]
+        mk(cases, "longname", ops)
     for _ in range(10 if tier == "quick" else 150):
         # a controller entity added WITHOUT a public key must never verify anybody; abandoned starts must not wedge a connection
         ops = ["N:h", "S:h:c0:ok", "V:h:c0:ok", "R:h:nokey:addnokey", "N:v"]
@@ -279,6 +300,8 @@ def oracle_c03(c, obs):
                 stored.add(p[2])
             elif p[3] == "remove":
                 stored.discard(p[2])
+        if p[0] == "S" and p[3] == "ok" and tok.startswith("S=st2/st4/st6"):
+            stored.add(p[2])
         honest_ok = p[0] == "V" and p[2] in stored and (p[3] == "ok" or (p[3] == "finish" and own.get(p[1]) is not None and own.get(p[1]) == acc.get(p[1])))
         if honest_ok and (tok.startswith("V=st2/st4[") or tok.startswith("V=st4[")) and "err" not in tok:
             genuine.add(p[1])
@@ -428,7 +451,11 @@ def gen_c09(rng, tier):
                 ops.append("A:a")
             if rng.random() < 0.3:
                 ops.append("CB")
-        mk(cases, "rw", ops, opts="nacc=%d" % rng.choice([0, 0, 0, 12]))
+        if rng.random() < 0.5:
+            # a value of several frames, in frames of any size, all in ONE segment (the accessory's read gets several frames at once)
+            big = "y" * rng.choice([700, 1500, 3000])
+            ops += ["P:a:4.13:J%s~%s:-" % (json.dumps(big).encode().hex(), big.encode().hex()), "G:a:4.13"]
+        mk(cases, "rw", ops, opts="nacc=%d fsz=%d" % (rng.choice([0, 0, 0, 12]), rng.choice([1024, 1024, 300, 100, 37])))
     # two controllers reading at the same time (a database of many chunks against long /characteristics answers)
     for i in range(2 if tier == "quick" else 12):
         mk(cases, "race", ["N:a", "S:a:c0:ok", "V:a:c0:ok", "N:b", "V:b:c0:ok", "RACE:a:b:%d" % (40 if tier == "quick" else 150)], opts="nacc=%d" % rng.choice([24, 40]))
